@@ -562,6 +562,8 @@ theorem attest_old (d : Deny) (s : Store) (acct c az now : Nat) (out : Outcome) 
       · exact base
       split
       · exact base
+      split
+      · exact base
       -- a status write of the challenge on top of a store `s0` that differs from `s` only by a fingerprint
       have mk : ∀ (s0 : Store) (st : Status), s0.chals = s.chals → s0.orders = s.orders → s0.certs = s.certs →
           (∀ (i : Nat) (a0 : Authz), s.authzs[i]? = some a0 → ∃ a', s0.authzs[i]? = some a' ∧ a'.acct = a0.acct ∧
@@ -1841,7 +1843,8 @@ theorem inv_single_fault (h : List Req) :
 def FpJust (op : Op) (s : Store) (i : Nat) (az az' : Authz) : Prop :=
   az'.fp = az.fp ∨
   ∃ acct c now out k ch, op = .attest acct c i now out ∧ out.key = some k ∧ az'.fp = some k ∧
-      s.chals[c]? = some ch ∧ ch.attest = true ∧ ch.status = .pending ∧ ch.acct = acct ∧ az.acct = acct
+      s.chals[c]? = some ch ∧ ch.attest = true ∧ ch.status = .pending ∧ ch.acct = acct ∧ az.acct = acct ∧
+      (az.chals = [] ∨ c ∈ az.chals)
 
 theorem respond_authzs (d : Deny) (s : Store) (acct c : Nat) (out : Outcome) :
     (respond d s acct c out).1.authzs = s.authzs := by
@@ -1948,6 +1951,9 @@ theorem step_fp (d : Deny) (s : Store) (op : Op) (i : Nat) (az : Authz) (h : s.a
         split
         · exact same
         rename_i hown
+        split
+        · exact same
+        rename_i hmine
         cases hk : out.key with
         | none =>
           simp only
@@ -1967,10 +1973,14 @@ theorem step_fp (d : Deny) (s : Store) (op : Op) (i : Nat) (az : Authz) (h : s.a
             · subst e
               rw [haz] at h; cases h
               refine ⟨{ az with fp := some k }, by simp [setFp, hlt], .inr ⟨acct, c, now, out, k, ch, rfl, hk, rfl, hc,
-                by simpa using hatt, by simpa using hst, by simpa using hacct, ?_⟩⟩
-              have h1 : az.acct = ch.acct := by simpa using hown
-              have h2 : ch.acct = acct := by simpa using hacct
-              rw [h1, h2]
+                by simpa using hatt, by simpa using hst, by simpa using hacct, ?_, ?_⟩⟩
+              · have h1 : az.acct = ch.acct := by simpa using hown
+                have h2 : ch.acct = acct := by simpa using hacct
+                rw [h1, h2]
+              · by_cases he : az.chals = []
+                · exact .inl he
+                · right
+                  simpa [he] using hmine
             · exact ⟨az, by simp [setFp, List.getElem?_set_ne e, h], .inl rfl⟩
           split
           · exact same
@@ -1982,12 +1992,13 @@ theorem step_fp (d : Deny) (s : Store) (op : Op) (i : Nat) (az : Authz) (h : s.a
 /-- **fp_cause** (every store, request and fault): the key recorded on an authorization changes
     only in a device-attest-01 response with a valid attestation of that key, sent through this
     authorization's URL by the account that owns the authorization and the pending device-attest
-    challenge answered. (Which of the account's challenges is answered is not tied to the
-    authorization: `attested_key_swap`.) -/
+    challenge answered, and (since /repo e055659) the challenge is one of this authorization's own
+    challenges unless the authorization has none (such an authorization can never become valid). -/
 theorem fp_cause (d : Deny) (s : Store) (op : Op) (i : Nat) (az az' : Authz)
     (h : s.authzs[i]? = some az) (h' : (step d s op).1.authzs[i]? = some az') (hn : az'.fp ≠ az.fp) :
     ∃ acct c now out k ch, op = .attest acct c i now out ∧ out.key = some k ∧ az'.fp = some k ∧
-      s.chals[c]? = some ch ∧ ch.attest = true ∧ ch.status = .pending ∧ ch.acct = acct ∧ az.acct = acct := by
+      s.chals[c]? = some ch ∧ ch.attest = true ∧ ch.status = .pending ∧ ch.acct = acct ∧ az.acct = acct ∧
+      (az.chals = [] ∨ c ∈ az.chals) := by
   obtain ⟨az'', h'', j⟩ := step_fp d s op i az h
   rw [h'] at h''; cases h''
   rcases j with e | w
@@ -2019,33 +2030,84 @@ theorem attested_key (d : Deny) (s : Store) (op : Op) (i : Nat) (o o' : Order)
     subst hg
     exact ⟨k', true, true, false, hop, rfl, orderFp_some hf⟩
 
-/-- **attested_key_swap** (what is left of D15 after 365cae8 and 4f1731b, reproduced on the real
-    code): an account with two attested orders sends each attestation through the URL of the OTHER
-    order's authorization. Order 0 (its challenge was answered with an attestation of key 1) is
-    refused with key 1 and finalized with key 2, the key attested for order 1's identifier. -/
-theorem attested_key_swap :
+/-- **attested_key_own** (the attested-key clause at full strength, every history and fault, since
+    /repo e055659): when an order with a permanent identifier turns valid after a history `h`, the
+    CSR key is the key recorded on one of the order's own authorizations, that authorization is
+    valid and has a valid challenge of its own; and (`fp_cause`) a key is recorded on an
+    authorization that has challenges only by a valid attestation of that key sent, by the owning
+    account, in response to one of THAT authorization's pending device-attest-01 challenges. -/
+theorem attested_key_own (h : List Req) (d : Deny) (op : Op) (i : Nat) (o o' : Order)
+    (ho : (run h).orders[i]? = some o) (ho' : (step d (run h) op).1.orders[i]? = some o')
+    (hn : o.status ≠ .valid) (hv : o'.status = .valid) (hatt : o.attested = true) :
+    (∃ k c g u, op = .finalize o.acct i op.now k c g u ∧
+      ∃ a ∈ o.authzs, ∃ az, (step d (run h) op).1.authzs[a]? = some az ∧ az.fp = some k ∧
+        az.status = .valid ∧ ∃ c ∈ az.chals, chalValid (step d (run h) op).1 c = true) ∧
+    (∀ (s : Store) (d' : Deny) (op' : Op) (a : Nat) (az az' : Authz),
+      s.authzs[a]? = some az → (step d' s op').1.authzs[a]? = some az' → az'.fp ≠ az.fp → az.chals ≠ [] →
+      ∃ acct c now out k ch, op' = .attest acct c a now out ∧ out.key = some k ∧ az'.fp = some k ∧
+        s.chals[c]? = some ch ∧ ch.attest = true ∧ ch.status = .pending ∧ ch.acct = acct ∧ az.acct = acct ∧
+        c ∈ az.chals) := by
+  constructor
+  · obtain ⟨k, c, g, u, hop, _, a, ha, az, haz, hfp⟩ := attested_key d (run h) op i o o' ho ho' hn hv hatt
+    have I : Inv (step d (run h) op).1 := inv_step d (run h) op (inv_run h)
+    obtain ⟨_, _, hz, _⟩ : o'.acct = o.acct ∧ o'.expires = o.expires ∧ o'.authzs = o.authzs ∧ True := by
+      obtain ⟨o'', h'', x, y, z, _⟩ := (step_old d (run h) op).order i o ho
+      rw [ho'] at h''; cases h''
+      exact ⟨x, y, z, trivial⟩
+    obtain ⟨az2, haz2, hval⟩ := I.ordCause i o' ho' (.inr hv) a (hz ▸ ha)
+    rw [haz] at haz2; cases haz2
+    exact ⟨k, c, g, u, hop, a, ha, az, haz, hfp, hval, I.azCause a az haz hval⟩
+  · intro s d' op' a az az' h1 h2 hne hch
+    obtain ⟨acct, c, now, out, k, ch, e1, e2, e3, e4, e5, e6, e7, e8, e9⟩ := fp_cause d' s op' a az az' h1 h2 hne
+    rcases e9 with e9 | e9
+    · exact absurd e9 hch
+    · exact ⟨acct, c, now, out, k, ch, e1, e2, e3, e4, e5, e6, e7, e8, e9⟩
+
+/-- the state machine as it was before /repo e055659 (device-attest-01 responses could name any
+    authorization of the account) -/
+def stepHistoric (d : Deny) (s : Store) : Op → Store × Resp
+  | .attest acct c az _ out => attestHistoric d s acct c az out
+  | op => step d s op
+
+def runHistoric (h : List Req) : Store := h.foldl (fun s r => (stepHistoric r.1 s r.2).1) {}
+
+/-- **attested_key_swap_historic** (D15-swap, repaired in /repo e055659; both halves reproduced on
+    the real code at the time): an account with two attested orders sent each attestation through the
+    URL of the OTHER order's authorization; order 0 (its challenge answered with an attestation of key
+    1) was refused with key 1 and finalized with key 2, the key attested for order 1's identifier.
+    Now both responses are refused and nothing is recorded. -/
+theorem attested_key_swap_historic :
     let h : List Req := [(.none, .newOrder 0 0 [(1, true)] false), (.none, .newOrder 0 1 [(1, true)] false),
       (.none, .attest 0 0 1 2 (.successKey 1)), (.none, .attest 0 1 0 3 (.successKey 2)),
       (.none, .getOrder 0 0 4)]
-    (run h).authzs.map (·.fp) = [some 2, some 1] ∧
-    (step .none (run h) (.finalize 0 0 5 1 true true false)).2 = .unauthorized ∧
-    (step .none (run h) (.finalize 0 0 5 2 true true false)).2 = .ok .valid := by
+    ((runHistoric h).authzs.map (·.fp) = [some 2, some 1] ∧
+     (step .none (runHistoric h) (.finalize 0 0 5 1 true true false)).2 = .unauthorized ∧
+     (step .none (runHistoric h) (.finalize 0 0 5 2 true true false)).2 = .ok .valid) ∧
+    -- repaired
+    ((run h).authzs.map (·.fp) = [none, none] ∧ (run h).chals.map (·.status) = [.pending, .pending] ∧
+     (step .none (run (h.take 2)) (.attest 0 0 1 2 (.successKey 1))).2 = .unauthorized) := by
   decide
 
-/-- **fp_overwrite_valid** (the same gap, second shape, reproduced on the real code): the
-    fingerprint write does not look at the status of the URL's authorization. Order 0 is attested
-    honestly with key 1 and is ready; a later attestation of key 2 for order 1's challenge, sent
-    through the URL of order 0's (valid) authorization, replaces the recorded key: order 0 is now
-    refused with the key that was attested for it and finalized with key 2. -/
-theorem fp_overwrite_valid :
+/-- **fp_overwrite_valid_historic** (second shape of D15-swap, repaired in /repo e055659): the
+    fingerprint write did not look at which authorization the URL named. Order 0 is attested honestly
+    with key 1 and is ready; an attestation of key 2 for order 1's challenge, sent through the URL of
+    order 0's (valid) authorization, replaced the recorded key: order 0 was then refused with the key
+    attested for it and finalized with key 2. Now that response is answered 401, the recorded key
+    stays, order 0 is finalized with key 1 only. -/
+theorem fp_overwrite_valid_historic :
     let h : List Req := [(.none, .newOrder 0 0 [(1, true)] false), (.none, .attest 0 0 0 1 (.successKey 1)),
       (.none, .getOrder 0 0 2), (.none, .newOrder 0 3 [(1, true)] false)]
     (run h).authzs.map (fun a => (a.status, a.fp)) = [(.valid, some 1), (.pending, none)] ∧
     (run h).orders[0]?.map (·.status) = some .ready ∧
     let h' := h ++ [(.none, .attest 0 1 0 4 (.successKey 2))]
-    (run h').authzs.map (fun a => (a.status, a.fp)) = [(.valid, some 2), (.pending, none)] ∧
-    (step .none (run h') (.finalize 0 0 5 1 true true false)).2 = .unauthorized ∧
-    (step .none (run h') (.finalize 0 0 5 2 true true false)).2 = .ok .valid := by
+    ((runHistoric h').authzs.map (fun a => (a.status, a.fp)) = [(.valid, some 2), (.pending, none)] ∧
+     (step .none (runHistoric h') (.finalize 0 0 5 1 true true false)).2 = .unauthorized ∧
+     (step .none (runHistoric h') (.finalize 0 0 5 2 true true false)).2 = .ok .valid) ∧
+    -- repaired
+    ((step .none (run h) (.attest 0 1 0 4 (.successKey 2))).2 = .unauthorized ∧
+     (run h').authzs.map (fun a => (a.status, a.fp)) = [(.valid, some 1), (.pending, none)] ∧
+     (step .none (run h') (.finalize 0 0 5 2 true true false)).2 = .unauthorized ∧
+     (step .none (run h') (.finalize 0 0 5 1 true true false)).2 = .ok .valid) := by
   decide
 
 /-- the two repaired shapes: through another account's authorization the response is refused
@@ -2057,9 +2119,11 @@ example :
 example :
     let h : List Req := [(.none, .newOrder 0 0 [(1, true)] false), (.none, .newOrder 0 0 [(3, false)] false),
       (.none, .attest 0 0 1 1 .success), (.none, .getOrder 0 0 2)]
-    (run h).orders[0]?.map (·.status) = some .ready ∧
-    (step .none (run h) (.finalize 0 0 3 0 true true false)).2 = .unauthorized ∧
-    (step .none (run h) (.finalize 0 0 3 1 true true false)).2 = .unauthorized := by decide
+    (runHistoric h).orders[0]?.map (·.status) = some .ready ∧
+    (step .none (runHistoric h) (.finalize 0 0 3 0 true true false)).2 = .unauthorized ∧
+    (step .none (runHistoric h) (.finalize 0 0 3 1 true true false)).2 = .unauthorized ∧
+    -- (since e055659 the response itself is refused and the order stays pending)
+    (run h).orders[0]?.map (·.status) = some .pending := by decide
 
 /-- the honest run: attestation through the order's own authorization, then only the attested key -/
 example :
